@@ -109,13 +109,11 @@ func VerifC02_Sanitise() {
 	} else {
 		verif.Assert("rejections_are_malicious_kind", commonerrors.Any(err, commonerrors.ErrMalicious))
 	}
-	// completeness: a legal name is extractable
-	if vLegalName(name) {
-		if di < 4 {
-			verif.AssertKnown("legal_names_are_accepted", err == nil, "KF-C02-dotdot-substring-rejected", vHasDotDotSubstring(name))
-		} else {
-			verif.AssertKnown("legal_names_are_accepted", err == nil, "KF-C02-destination-root-or-dot-rejects-everything", true)
-		}
+	// (that legal names are accepted is not part of this property -- it is what the round trip of C07
+	// demands -- so an over-cautious rejection is not an alarm here; acceptance is only recorded, so that
+	// a sanitiser that refuses everything does not pass unnoticed: see the vacuity guard on "accepted")
+	if err == nil && vLegalName(name) {
+		verif.Reach("accepted")
 	}
 }
 
